@@ -357,7 +357,10 @@ def native_interfaces(seed):
             bad.append(f"Collection(list).get{X}(sens) differs from the sum of src.get{X}(sens)")
         if not np.allclose(top(srcs, sens, sumup=True), ref.sum(axis=0), rtol=1e-9, atol=1e-16):
             bad.append(f"get{X}(list, sens, sumup=True) differs from the sum of src.get{X}(sens)")
-    bad += _native_decomposed(magpy, rng)
+    try:
+        bad += _native_decomposed(magpy, rng)
+    except Exception as e:  # pylint: disable=broad-except
+        bad.append(f"decomposed evaluation raised {type(e).__name__}: {e}")
     return bad
 
 
